@@ -48,6 +48,8 @@ struct Property
     // Optional per-process hooks.
     void (*init)() = nullptr;
     void (*extraEvidence)(std::ostream &jsonFields) = nullptr; // emits ,"key":value fragments
+    // Optional: byte-level entry (libFuzzer targets whose input is a document rather than a choice tape).
+    void (*runBytes)(const uint8_t *data, size_t size, Case &c) = nullptr;
 };
 
 extern Property property; // defined by each props/Cxx.cpp
@@ -68,6 +70,8 @@ std::string jsonEscape(const std::string &s);
 // Returns the index of the matching "known" entry for (property id, signature), or -1.
 int knownFindingIndex(const std::string &propertyId, const std::string &sig);
 std::string knownFindingWhat(int idx);
+std::string knownFindingSig(int idx);
+void loadKnown(); // reads $VERIF_KNOWN (tab separated: property, signature glob, what)
 bool globMatch(const std::string &pattern, const std::string &text);
 
 // Case isolation helper: run fn in a forked child; returns 0 when the child exited normally with status 0,
